@@ -313,7 +313,17 @@ func collectExprRel(expr Expr) []UniRel {
 			return colB(bl)
 		case ReturnableExpr_RMatchExpr:
 			me := _v14.Value
-			return frt.Pipe(frt.Pipe(frt.Pipe(mrsToBlocks(me.Rules), (func(_r0 []Block) [][]UniRel { return slice.Map(colB, _r0) })), slice.Concat), (func(_r0 []UniRel) []UniRel { return slice.Append(colE(me.Target), _r0) }))
+			blocks := mrsToBlocks(me.Rules)
+			armT := func(b Block) FType {
+				return frt.Pipe(blockToExpr(b), ExprToType)
+			}
+			first := frt.Pipe(slice.Head(blocks), armT)
+			armRels := frt.Pipe(frt.Pipe(slice.Tail(blocks), (func(_r0 []Block) [][]UniRel {
+				return slice.Map(func(b Block) []UniRel {
+					return unifyType(first, armT(b))
+				}, _r0)
+			})), slice.Concat)
+			return frt.Pipe(frt.Pipe(frt.Pipe(frt.Pipe(blocks, (func(_r0 []Block) [][]UniRel { return slice.Map(colB, _r0) })), slice.Concat), (func(_r0 []UniRel) []UniRel { return slice.Append(armRels, _r0) })), (func(_r0 []UniRel) []UniRel { return slice.Append(colE(me.Target), _r0) }))
 		default:
 			panic("Union pattern fail. Never reached here.")
 		}
